@@ -108,6 +108,33 @@ def thin(data, rng, per_part=25, only=None, factor=None):
     return out.getvalue(), removed
 
 
+def bare(data):
+    """every empty, attribute-less element removed (systematically, last to first) where the part stays schema-valid: the
+    document other producers write when they omit every optional empty container (a:tcPr, a:bodyPr children, a:pPr ...)"""
+    from pptx import Presentation
+    from harness import xmllab as X
+
+    prs = Presentation(io.BytesIO(data))
+    removed = 0
+    for pn, el in X.xml_parts(prs.part.package):
+        if X.schema_for(el) is None or not X.validate(el)[0]:
+            continue
+        for e in reversed([e for e in el.iter() if isinstance(e.tag, str) and e is not el]):
+            if len(e) or e.attrib or (e.text or "").strip():
+                continue
+            parent = e.getparent()
+            idx = parent.index(e); tail = e.tail
+            parent.remove(e)
+            if X.validate(el)[0]:
+                removed += 1
+            else:
+                e.tail = tail
+                parent.insert(idx, e)
+    out = io.BytesIO()
+    prs.save(out)
+    return out.getvalue(), removed
+
+
 _DONORS = None
 R_NS_ = "http://schemas.openxmlformats.org/officeDocument/2006/relationships"
 _STATIC_DONORS = [
@@ -162,7 +189,10 @@ def donors():
             continue
         el = etree.fromstring(xml % ns)
         pool.setdefault(par % ns, {}).setdefault(el.tag, []).append(etree.tostring(el))
-    shape_tags = {"sp", "pic", "grpSp", "graphicFrame", "cxnSp", "contentPart", "ser", "sldId", "sldMasterId", "sldLayoutId", "notesMasterId"}
+    # (axes refer to each other by c:axId / c:crossAx: a donated axis would make the chart referentially inconsistent,
+    # which no schema check sees - an enriched deck must stay a deck some producer could have written)
+    shape_tags = {"sp", "pic", "grpSp", "graphicFrame", "cxnSp", "contentPart", "ser", "sldId", "sldMasterId", "sldLayoutId", "notesMasterId",
+                  "valAx", "catAx", "dateAx", "serAx", "axId", "crossAx"}
     for d in common.corpus_decks():
         try:
             prs = Presentation(str(d))
@@ -180,7 +210,7 @@ def donors():
                 for x in e.iter():
                     if not isinstance(x.tag, str):
                         continue
-                    if any(k == "id" or k.startswith("{" + R_NS_) for k in x.attrib):
+                    if any(k == "id" or k.startswith("{" + R_NS_) for k in x.attrib) or etree.QName(x).localname in ("axId", "crossAx"):
                         bad = True
                         break
                 if bad or len(etree.tostring(e)) > 4000:
@@ -652,7 +682,30 @@ def end_to_end(ctx, label, data, lines, metas):
         lines.append(f"c12.same {','.join(map(str, roots))} {','.join(map(str, inner))} {T.encode(ra)} | {T.encode(rb)}")
         metas.append(({"deck": label, "part": ma, "what": "end-to-end"}, "same-up-to-empty-containers" if same else "different"))
         if not same:
-            ctx.fail("e2e:xml-part", f"{label}: {ma} changed by reading the presentation (beyond empty attribute-less containers)", dict(case, part=ma))
+            ctx.fail("e2e:xml-part", f"{label}: {ma} changed by reading the presentation (beyond empty attribute-less containers): {first_difference(ra, rb)}", dict(case, part=ma))
+
+
+def first_difference(a, b, path=""):
+    """where two lxml trees first differ (for the report only)"""
+    q = lambda e: etree.QName(e).localname if isinstance(e.tag, str) else "#"  # noqa
+    here = f"{path}/{q(a)}"
+    if a.tag != b.tag:
+        return f"{here}: element <{q(a)}> vs <{q(b)}>"
+    if dict(a.attrib) != dict(b.attrib):
+        ks = sorted(set(a.attrib) | set(b.attrib))
+        d = [(k.split('}')[-1], a.get(k), b.get(k)) for k in ks if a.get(k) != b.get(k)]
+        return f"{here}: attributes differ {d[:3]}"
+    if (a.text or "").strip() != (b.text or "").strip():
+        return f"{here}: text {a.text!r} vs {b.text!r}"
+    ka, kb = [c for c in a if isinstance(c.tag, str)], [c for c in b if isinstance(c.tag, str)]
+    for i, (x, y) in enumerate(zip(ka, kb)):
+        d = first_difference(x, y, here + f"[{i}]" if False else here)
+        if d:
+            return d
+    if len(ka) != len(kb):
+        extra = (ka if len(ka) > len(kb) else kb)[min(len(ka), len(kb))]
+        return f"{here}: {len(ka)} vs {len(kb)} children; first unmatched <{q(extra)}> ({'straight save' if len(ka) > len(kb) else 'after reading'})"
+    return None
 
 
 def correspond(ctx):
